@@ -47,6 +47,10 @@ def rules(ctx):
     c025(ctx)
     c026(ctx)
     c027(ctx)
+    from . import C13
+    C13.c131(ctx)   # the manifest reader delivers an edit only at its separator (a torn tail is dropped whole)
+    C13.c135(ctx)   # an edit is replayed remove-then-add
+    C13.c136(ctx)   # a file that may end in a torn edit is rewritten before anything is appended to it
 
 
 # ---------------------------------------------------------------------------------------------------
